@@ -65,9 +65,7 @@ class Mirror:
         vals = []
         for t, k in zip(types, kinds):
             v = rnd_val(self.rng, t, small=small)
-            if k == "b" and t == "s" and len(v.v) > 20:
-                v = Val("s", v.v[:20])
-            vals.append(v)
+            vals.append(for_index(v, t, k))
         return vals
 
     def insert(self, name, vals=None):
@@ -97,9 +95,7 @@ class Mirror:
         asg = []
         for c in cs:
             v = rnd_val(self.rng, types[c])
-            if kinds[c] == "b" and types[c] == "s":
-                v = Val("s", v.v[:20])
-            asg.append((c, v))
+            asg.append((c, for_index(v, types[c], kinds[c])))
         if not all(v.literal_ok() for _, v in asg):
             return
         sql = "UPDATE %s SET %s WHERE %s;" % (self.q(name), ", ".join("%s = %s" % (names[c], v.sql()) for c, v in asg), p.sql(names))
@@ -205,9 +201,7 @@ class Mirror:
                 asg = []
                 for c in cs:
                     v = rnd_val(self.rng, types[c], small=False)
-                    if kinds[c] == "b" and types[c] == "s":
-                        v = Val("s", v.v[:20])
-                    asg.append((c, v))
+                    asg.append((c, for_index(v, types[c], kinds[c])))
                 if not all(v.literal_ok() for _, v in asg):
                     continue
                 sql = "UPDATE %s SET %s WHERE %s;" % (self.q(name), ", ".join("%s = %s" % (names[c], v.sql()) for c, v in asg), p.sql(names))
